@@ -526,6 +526,8 @@ pub fn strategy(g: &GenCfg, bias: u8) -> BoxedStrategy<Case> {
             6 => Just(Op(S_SEND, 0, 0)),
             2 => Just(Op(S_YIELD, 0, 0)),
             1 => (1u32..1500).prop_map(|us| Op(S_SLEEP, us, 0)),
+            // a send that coincides with the expiry of a receiver's recv_timeout(1..3 ms)
+            1 => (1u32..4, 0u32..8).prop_map(|(ms, off)| Op(S_SLEEP, ms * 1000 + off - 4, 0)),
             1 => Just(Op(S_CLONE, 0, 0)),
             1 => Just(Op(S_DROP1, 0, 0)),
         ];
